@@ -1,6 +1,7 @@
 import DEngine.Lemmas.ClientQ
 import DEngine.Lemmas.ClientQOut
 import DEngine.Lemmas.ClientQKeeps
+import DEngine.Lemmas.ClientQLin
 /-!
 # C11 — Linearizable reads on the leader
 
@@ -113,6 +114,62 @@ theorem pathB_serves_only_applied (s : St) (k : Nat) (id : Nat) (v a : Nat)
       rw [ha]
       refine ⟨e, he, hin, hkk, ?_⟩
       injection hr with _ ha'
+
+/-! ### state half, over whole histories -/
+
+/-- **C11 state half (full strength, trace level).** Take any history `evs1`; let `s0` be the leader's state after
+    it, `r` a read sitting in the linearizable read buffer of `s0`, and let the next event be the flush that accepts
+    it (the commit index at accept time is `s0.commit` — the ghost "accept-time commit"). Then, whatever events
+    follow (`evs2`: acknowledgements in any order, apply completions with any lag, ticks, further reads and writes,
+    step-down, fatal errors …), every answer `val v a` that `r` ever receives was read from the state machine at an
+    applied index `a ≥ s0.commit`. Since a write is acknowledged only when its own index is committed and applied
+    (C29 `success_after_own_apply`) and commit indexes only grow, the read reflects every write acknowledged
+    before it was accepted. Proof: uniqueness of request ids (`Acc`, C29) places `r` in no other queue at accept
+    time; the tracking invariant `LinHyp` (batch keys of `r` ≥ C, `r` in no value-answering queue) is kept by all
+    16 event kinds, and a parked read is answered only when `key ≤ last_applied`. -/
+theorem lin_read_state_fresh (c : Cfg) (pre : Nat) (evs1 evs2 : List Ev) (r : Nat)
+    (hl : c.leader = true) (hrun : (run c (init c pre) evs1).1.phase = .running)
+    (hin : r ∈ (run c (init c pre) evs1).1.linBuf) :
+    ∀ o ∈ (run c (run c (init c pre) evs1).1 (.flush :: evs2)).2, ∀ v a, (r, Resp.val v a) ∈ o →
+      (run c (init c pre) evs1).1.commit ≤ a := by
+  have hinv := inv_reachable c pre evs1
+  have hacc := (acc_init c pre).run c evs1 (inv_init c pre)
+  generalize (run c (init c pre) evs1).1 = s0 at *
+  generalize ([] ++ answeredIds (run c (init c pre) evs1).2) = A at hacc
+  -- uniqueness: r is in the read buffer, hence in no other queue, and it has been issued
+  have hr := hacc r
+  have hcnt : 0 < s0.linBuf.count r := List.count_pos_iff.mpr hin
+  rw [pc_eq] at hr
+  have hlt : r < s0.nextId := by
+    apply Classical.byContradiction
+    intro hge
+    rw [if_neg hge] at hr
+    omega
+  rw [if_pos hlt] at hr
+  have z1 : s0.leaseQ.count r = 0 := by omega
+  have z2 : s0.evQ.count r = 0 := by omega
+  have z3 : (s0.pleases.map (·.1)).count r = 0 := by omega
+  have z4 : (s0.preads.flatMap (·.2.2)).count r = 0 := by omega
+  have nlease : r ∉ s0.leaseQ := List.count_eq_zero.mp z1
+  have nev : r ∉ s0.evQ := List.count_eq_zero.mp z2
+  have npl : ∀ e ∈ s0.pleases, e.1 ≠ r := by
+    intro e he hk
+    exact List.count_eq_zero.mp z3 (List.mem_map.mpr ⟨e, he, hk⟩)
+  have keys : ∀ e ∈ s0.preads, r ∈ e.2.2 → s0.commit ≤ e.1 := by
+    intro e he hre
+    exact absurd (List.mem_flatMap.mpr ⟨e, he, hre⟩) (List.count_eq_zero.mp z4)
+  have t := track_flush_accept c hin (Nat.le_refl _) hlt nlease nev npl keys
+  have hstep : step c s0 .flush = flush c s0 := by
+    unfold step; simp [hrun, hl]
+  intro o ho
+  unfold run at ho
+  simp only at ho
+  rw [hstep] at ho
+  rcases List.mem_cons.mp ho with h1 | h1
+  · subst h1; exact t.1
+  · have hi1 : Inv [] (flush c s0).1 := by
+      have := hinv.step c .flush; rw [hstep] at this; exact this
+    exact track_run c evs2 hi1 t.2 o h1
 
 /-! ### leadership half -/
 
